@@ -4,7 +4,15 @@
    on the real map_async under perturbed schedules by drivers/c41_threadpool.py.        *)
 EXTENDS ThreadPool, TLC, Json, IOUtils, SequencesExt
 CONSTANTS MaxItems, MaxThreads
-Cases == UNION {{[n |-> n, threads |-> t, haslen |-> h, style |-> s, out |-> o, workers |-> Workers(n, t, h)] :
+Model == UNION {{[n |-> n, threads |-> t, haslen |-> h, style |-> s, out |-> o, kinds |-> [i \in 1..n |-> "ok"],
+                    workers |-> Workers(n, t, h)] :
                    t \in 1..MaxThreads, h \in BOOLEAN, s \in {"gen", "ret"}, o \in [1..n -> 0..2]} : n \in 0..MaxItems}
+(* the worker of metadata regeneration (operations/regen.py regen_iter): per package the
+   regeneration succeeds ("ok": no result), hits broken metadata ("meta": MetadataException,
+   handled elsewhere, no result) or fails otherwise ("err": one result, the pair (pkg, error)) *)
+Regen == UNION {{[n |-> n, threads |-> t, haslen |-> h, style |-> "regen",
+                  out |-> [i \in 1..n |-> IF k[i] = "err" THEN 1 ELSE 0], kinds |-> k, workers |-> Workers(n, t, h)] :
+                   t \in 1..MaxThreads, h \in BOOLEAN, k \in [1..n -> {"ok", "meta", "err"}]} : n \in 0..MaxItems}
+Cases == Model \cup Regen
 ASSUME ndJsonSerialize(IOEnv.OUT, SetToSeq(Cases))
 =========================================================================
